@@ -294,7 +294,7 @@ QUICK_FIXED = {'$ + $', '[9] + $', '$ + [9]', '$ + {c => 1}', '$ * 2', '1 in $',
 
 def conditions(tier, seed):
     quick = tier == 'quick'
-    t = 90 if quick else 300
+    t = 120 if quick else 300
     ns = [0, 2] if quick else [0, 1, 2]
     out = []
     for kind, text in FIXED:
@@ -306,8 +306,8 @@ def conditions(tier, seed):
                     'bounds': '%s with $ = %s, n in %s, x0,x1 %s, convertInputData symbolic' % (
                         text, L.KINDS[kind][1], ns, 'in [0,2]' if bounded else 'unbounded')})
     for name, mod, label, kind, text, bounded in generated(tier):
-        if quick and (R.stable_hash(text) + seed) % 5 >= 3:
-            continue                                   # quick: a deterministic 3/5 sample of the core modules
+        if quick and (R.stable_hash(text) + seed) % 2 != 0:
+            continue                                   # quick: a deterministic 1/2 sample of the core modules
         out.append({'name': 'fn[%s | %s]' % (text, kind), 'func': 'apply', 'timeout': t,
                     'param': {'text': text, 'kind': kind, 'ns': ns, 'bounded': bounded},
                     'bounds': '%s (%s.%s parameter %s) with $ = %s, n in %s, x0,x1 %s, convertInputData symbolic'
